@@ -215,6 +215,12 @@ def rule_c(ctx: Ctx) -> None:
                    key=f'ivc|fixed|{(flag, "T") in gs}')
         else:
             ctx.ob(rule, 'only fixed/default values are yielded', f.loc(y), False, f'yields `{val}`', key=f'ivc|other|{val}')
+        # nothing is supplied for a prohibited attribute (it would be injected into the instance and then decoded as if present)
+        notp = any(("use != 'prohibited'" in t and lab == 'T') or ("use == 'prohibited'" in t and lab == 'F') or ('is_prohibited()' in t and lab == 'F')
+                   or ('not k or' in t and "use == 'prohibited'" in t and lab == 'F') for t, lab in gs)
+        ctx.ob(rule, 'no value constraint is supplied for an attribute whose use is prohibited', f.loc(y), notp,
+               '' if notp else 'the fixed/default value of a prohibited attribute is added to the attributes of the instance: decoded data shows an attribute that may not '
+               'occur', key=f'ivc|not-prohibited|{val}|{(flag, "T") in gs}')
     ctx.ob(rule, 'fixed values are supplied also when default filling is disabled', f.loc(), saw_fixed_off, '', key='ivc|fixed-off')
     ctx.ob(rule, 'default values are supplied when default filling is enabled', f.loc(), saw_default, '', key='ivc|default-on')
     # call sites pass the context's switch and only add absent names
@@ -243,10 +249,11 @@ def rule_d(ctx: Ctx) -> None:
             hits += 1
             t = text(n.ast.test)
             reps = [c for s in n.ast.body for c in calls(s) if is_reporter_call(c)]
-            ok = bool(reps) and 'is_matching(name)' in t and 'fixed is None' in t and \
+            ok = bool(reps) and 'is_matching(name)' in t and 'fixed' not in t and 'default' not in t and \
                 all(text(c.args[0]) == 'validation' for c in reps)
-            ctx.ob(rule, 'a prohibited attribute is reported unless a wildcard admits the name', f.loc(n.ast), ok,
-                   '' if ok else ('no report on the true branch' if not reps else f'test is `{t}`'), key='prohibited')
+            ctx.ob(rule, 'a prohibited attribute is reported unless a wildcard admits the name (whatever value constraint the declaration carries)', f.loc(n.ast), ok,
+                   '' if ok else ('no report on the true branch' if not reps else f'test is `{t}`: a prohibited attribute that also has a fixed/default value is '
+                                  'accepted when present'), key='prohibited')
     ctx.floor(rule, "tests of use == 'prohibited'", hits, 1)
     ctx.explain('C03.d: presence and guard of the prohibited-use report.')
 
